@@ -72,6 +72,12 @@ def run(chk):
     if chk.want("R08.5"):
         from ..inherit import inherit
         inherit(chk, "R08.5", "c07", ["R07.7"])
+    chk.rule("R08.6", "the coefficients handed to the invariants are the transform's own: SHT.analysis returns what its kernel accumulated for the layout "
+                      "of its input, freshly allocated (= C07 R07.8); a complex function is not two real channels (the conjugate-symmetric expansion of "
+                      "re + i im is wrong for m != 0 content in the imaginary part)", 4)
+    if chk.want("R08.6"):
+        from ..inherit import inherit
+        inherit(chk, "R08.6", "c07", ["R07.8"])
     chk.assume("rotation invariance as a numerical fact is not decided; the Clebsch-Gordan routine is compared with the Racah formula it cites "
                "(R08.3 racah:*), the formula itself is taken from the reference")
     chk.assume("the installed _invariants .so may lag the .pyx source (Cython is not available to rebuild)")
@@ -785,6 +791,23 @@ def r08_4(chk, sd):
     q = "make_invariants"
     ev = sd.ev(q)
     chk.saw(SD, q)
+    # the result is a function of (l_max, coefficients, kinds): nothing that reaches the invariant routines depends on a module-level flag the
+    # function itself flips (a warn-once flag that also guards the truncation makes the second call differ from the first)
+    fn_ = sd.func(q)
+    flags = {n for st in ast.walk(fn_) if isinstance(st, ast.Global) for n in st.names}
+    tainted = []
+    for e in ev.events:
+        if e.kind == "call" and e.extra.get("args") and (call_name(e.value.as_atom() or ()) or "").split(".")[-1].endswith(("invariants_c", "invariants", "invariants_r", "make_N_invariants")):
+            for a_ in e.extra["args"]:
+                for f_ in flags:
+                    if f_ in a_.key():
+                        tainted.append(f"{str(e.value)[:90]} depends on {f_}")
+            for c_, pol_ in e.guards:
+                for f_ in flags:
+                    if f_ in c_.key():
+                        tainted.append(f"{(call_name(e.value.as_atom()) or '?').split('.')[-1]}(...) is called under a test of {f_}")
+    chk.ob("R08.4", SD, q, "what the invariant routines receive does not depend on module state the function changes (the warn-once flag guards the "
+           "warning only)", not tainted, fingerprint="stateless", found=tainted[:2])
     ret = ev.returns[-1].value.as_atom()
     chk.need(ret and ret[0] == "call" and call_name(ret) in ("numpy.hstack", "numpy.concatenate") and ret[2], f"{q}: result is not a concatenation")
     parts = ret[2][0].as_atom()
